@@ -46,7 +46,62 @@ def c10_evaluation_goes_through_the_context(eng):
     return out
 
 
+def c11_memo_keys_keep_their_node_alive(eng):
+    """C10/C11: a memo keyed by object identity is only sound while the object lives - CPython reuses the address of a freed object.
+    Every store into an identity memo of the package (EvalContext._eval_cache_id, the nodes memo of type deduction, the cache of
+    map_nodes, the deep-copy memo) uses utils.persistent_id(obj), which keeps obj alive as long as the key exists; a bare id(obj) as
+    a STORED key lets a temporary node (a !rec stage, a node returned by !eval code) alias the result of an earlier one."""
+    out = []
+    n_sites = 0
+    for key, fi in eng.repo.funcs.items():
+        if fi.kind == 'nested':
+            continue
+        for n in ast.walk(fi.node):
+            if isinstance(n, ast.Assign) and len(n.targets) == 1 and isinstance(n.targets[0], ast.Subscript):
+                idx = n.targets[0].slice
+                if isinstance(idx, ast.Call):
+                    fn = ast.unparse(idx.func)
+                    if fn == 'id' or fn.endswith('persistent_id'):
+                        n_sites += 1
+                        out.append((f'C10+C11.identity-memo-key-keeps-the-object-alive@{key.split("::")[1]}:{n.lineno}', fn.endswith('persistent_id'),
+                                    f'{ast.unparse(n.targets[0])} in {key} line {n.lineno}'))
+    if n_sites == 0:
+        out.append(('C10+C11.identity-memos-found', False, 'no store into an identity-keyed memo found (the scan no longer matches the code)'))
+    return out
+
+
+def c20_no_process_wide_state_written_at_run_time(eng):
+    """C20: inside functions of the package nothing is assigned to an attribute of a CLASS of the package (a class attribute is one
+    slot shared by all threads).  The only sanctioned exception is the documented setter of the default evaluation symbols."""
+    out = []
+    allowed = {('awesomeyaml/eval_context.py::EvalContext.set_default_eval_symbols', 'EvalContext._default_eval_symbols')}
+    classes = set(eng.repo.classes) | {'AwesomeyamlLoader', 'AwesomeyamlDumper'}
+    seen = 0
+    for key, fi in eng.repo.funcs.items():
+        for n in ast.walk(fi.node):
+            targets = []
+            if isinstance(n, ast.Assign):
+                targets = n.targets
+            elif isinstance(n, (ast.AugAssign, ast.AnnAssign)):
+                targets = [n.target]
+            for t in targets:
+                for tt in (t.elts if isinstance(t, ast.Tuple) else [t]):
+                    if isinstance(tt, ast.Attribute) and isinstance(tt.value, ast.Name) and tt.value.id in classes:
+                        seen += 1
+                        name = f'{tt.value.id}.{tt.attr}'
+                        ok = (key, name) in allowed
+                        out.append((f'C20.no-class-attribute-written-at-run-time@{key.split("::")[1]}:{n.lineno}:{name}', ok,
+                                    f'{key} line {n.lineno} assigns {name}' + (' (documented process-wide default)' if ok else ' - a slot shared by all threads')))
+    if seen == 0:
+        out.append(('C20.no-class-attribute-written-at-run-time', True, 'no assignment to a class attribute inside any function of the package'))
+    return out
+
+
 def register(R):
+    R.tasks.append(Structural('structural:C11-identity-memo-keys', ('C10', 'C11'), c11_memo_keys_keep_their_node_alive,
+                              note='stores into identity-keyed memos use utils.persistent_id'))
+    R.tasks.append(Structural('structural:C20-no-process-wide-state', ('C20',), c20_no_process_wide_state_written_at_run_time,
+                              note='no assignment to class attributes inside functions'))
     R.tasks.append(Structural('structural:C10-evaluation-goes-through-the-context', ('C10', 'C07', 'C09'), c10_evaluation_goes_through_the_context,
                               note='call sites of the evaluation hook: only EvalContext.evaluate_node'))
     R.tasks.append(Structural('structural:C17-mutators-overridden', ('C17',), c17_overrides,
